@@ -33,7 +33,7 @@ func (pad iso9797M2Padding) Unpad(src []byte) ([]byte, error) {
 	}
 	tail := src[srcLen-pad.BlockSize():]
 	allZero := true
-	padStart := 0
+	padStart := -1
 	for i := pad.BlockSize() - 1; i >= 0; i-- {
 		if tail[i] == 0x80 {
 			padStart = i
@@ -44,7 +44,7 @@ func (pad iso9797M2Padding) Unpad(src []byte) ([]byte, error) {
 			break
 		}
 	}
-	if !allZero {
+	if !allZero || padStart < 0 { // the mandatory 0x80 marker must be present
 		return nil, errors.New("padding: inconsistent padding bytes")
 	}
 	return src[:srcLen-pad.BlockSize()+padStart], nil
